@@ -520,7 +520,11 @@ func (a *Authenticator) ClientHandshake(ctx context.Context) (*SecurityNegotiati
 		// A cached session without a key cannot be resumed (the server refuses it:
 		// nothing would prove the requester is the session's owner), so do not try --
 		// go straight to a full handshake on this connection.
-		if entry, ok := cache.LookupByCommand(a.config.SecurityTag, serverAddr, cmdStr); ok && entry.KeyInfo() != nil && len(entry.KeyInfo().Data) > 0 {
+		// Nor does an unauthenticated session stand in for a handshake when this
+		// endpoint's policy marks authentication REQUIRED (it may have been created
+		// under a more permissive configuration sharing the cache).
+		if entry, ok := cache.LookupByCommand(a.config.SecurityTag, serverAddr, cmdStr); ok && entry.KeyInfo() != nil && len(entry.KeyInfo().Data) > 0 &&
+			(a.config.Authentication != SecurityRequired || sessionWasAuthenticated(entry)) {
 			slog.Info(fmt.Sprintf("🔐 CLIENT: Found cached session %s for %s, attempting to resume...",
 				redactSessionID(entry.ID()), serverAddr), "destination", "cedar")
 
@@ -698,6 +702,16 @@ func (a *Authenticator) handleSessionResumption(ctx context.Context, sessionID s
 		slog.Info(fmt.Sprintf("🔐 SERVER: Session %s has no key; refusing to resume it", redactSessionID(sessionID)), "destination", "cedar")
 		ok = false
 	}
+	// A cached session stands in for a handshake only if it provides what this
+	// endpoint's own policy for the resumed command marks REQUIRED. Encryption and
+	// integrity are covered by the key check above; with authentication REQUIRED
+	// the session must have been authenticated when it was established. Otherwise
+	// a session created under a permissive policy (another command, another
+	// listener sharing the process-wide cache) would satisfy a strict one.
+	if ok && a.resumptionPolicy(clientAd, command).Authentication == SecurityRequired && !sessionWasAuthenticated(entry) {
+		slog.Info(fmt.Sprintf("🔐 SERVER: Session %s was not authenticated but authentication is REQUIRED; refusing to resume it", redactSessionID(sessionID)), "destination", "cedar")
+		ok = false
+	}
 	if !ok {
 		slog.Info(fmt.Sprintf("🔐 SERVER: Session %s not found or expired", redactSessionID(sessionID)), "destination", "cedar")
 
@@ -813,6 +827,33 @@ func (a *Authenticator) handleSessionResumption(ctx context.Context, sessionID s
 	slog.Info(fmt.Sprintf("🔐 SERVER: Successfully resumed session %s", redactSessionID(sessionID)), "destination", "cedar")
 
 	return negotiation, nil
+}
+
+// resumptionPolicy returns the configuration that governs a resumption request:
+// the per-command one for the command named in the request when a selector is
+// installed and knows the command, else this authenticator's own.
+func (a *Authenticator) resumptionPolicy(clientAd *classad.ClassAd, command int) *SecurityConfig {
+	cfg := a.config
+	if a.ServerConfigForCommand != nil {
+		if c, ok := clientAd.EvaluateAttrInt("Command"); ok {
+			command = int(c)
+		}
+		if perCmd := a.ServerConfigForCommand(command); perCmd != nil {
+			cfg = perCmd
+		}
+	}
+	return cfg
+}
+
+// sessionWasAuthenticated reports whether a cached session records that
+// authentication really took place when it was established.
+func sessionWasAuthenticated(entry *SessionEntry) bool {
+	policy := entry.Policy()
+	if policy == nil {
+		return false
+	}
+	authed, ok := policy.EvaluateAttrBool("Authenticated")
+	return ok && authed
 }
 
 // ServerHandshake performs the server-side security handshake
@@ -1400,6 +1441,9 @@ func (a *Authenticator) storeClientSession(negotiation *SecurityNegotiation, dur
 	}
 	_ = policy.Set("AuthMethods", string(negotiation.NegotiatedAuth))
 	_ = policy.Set("CryptoMethods", string(negotiation.NegotiatedCrypto))
+	// Whether authentication really ran (the "Authentication" attribute above is
+	// only the configured level); consulted before the session is reused.
+	_ = policy.Set("Authenticated", negotiation.Authentication)
 	// Store User information for session resumption
 	if negotiation.User != "" {
 		_ = policy.Set("User", negotiation.User)
